@@ -27,6 +27,7 @@ import TboxModel.C17.ParLeaves
 import TboxModel.C17.NotStuck
 import TboxModel.C17.LateProofs
 import TboxModel.C17.Tmo
+import TboxModel.C17.SimBatch
 namespace Tbox.C17
 
 /-! ## Layer 1 — one action, every call sequence
@@ -704,6 +705,63 @@ theorem C17_fine_schedule_on_race_tree :
     rootFins (run raceTree {} [.calls [.start], .adv 150, .pass, .pass, .adv 100, .pass]) = [(true, .finished)] ∧
     fineRun raceTree {} [.calls [.start], .adv 300, .pass, .pass] = false := by decide +kernel
 
+/-! ## Round 10 — towards Parallel BELOW serial composites: the documented order of a parallel node, the batch embedding -/
+
+theorem visitAll_leaves : ∀ (l : List Node), (∀ c ∈ l, leafOkB c = true) → visitAll (ofList l) = fnIds l
+  | [], _ => rfl
+  | c :: l, h => by
+    have hc := h c (by simp)
+    have ih := visitAll_leaves l (fun x hx => h x (by simp [hx]))
+    simp only [leafOkB, Bool.and_eq_true] at hc
+    simp only [ofList, visitAll, fnIds, List.filterMap_cons] at ih ⊢
+    rw [ih]
+    cases hk : c.kind <;> simp_all [visit]
+
+/-- **the documented visit order of a ParallelAction over Function / Sleep leaves** is the ids of its FunctionAction children in child
+order (`visit` now says so; it was `[]` before round 10): `C17_result_matches_doc_par_leaves` in the vocabulary of the serial
+theorem — a prefix of… here: exactly `visit t` (all calls happen inside `start()`), then none or exactly one finish notification
+carrying `eval t`. -/
+theorem C17_result_matches_doc_par_leaves_visit (d : Node) (l : List Node) (m : Mode3) (hk : d.kind = .par m) (htmo : d.tmo = none)
+    (hc : cleanNode d = true) (hl : ∀ c ∈ l, leafOkB c = true) (ops : List Op) (hcf : ops.all cfOp = true) :
+    ∃ r, eval (.node d (ofList l)) = some r ∧
+    (trOf (run (.node d (ofList l)) {} (.calls [.start] :: ops)).2.log = (visit (.node d (ofList l))).map Sum.inl ∨
+     trOf (run (.node d (ofList l)) {} (.calls [.start] :: ops)).2.log = (visit (.node d (ofList l))).map Sum.inl ++ [Sum.inr r]) := by
+  have hv : visit (.node d (ofList l)) = fnIds l := by rw [visit]; simp only [hk]; exact visitAll_leaves l hl
+  rw [hv]
+  exact ⟨(true, 0), C17_result_matches_doc_par_leaves d l m hk htmo hc hl ops hcf⟩
+
+/-- **batch form of the embedding lemma** (`runQueue_embed` / `step_embed` of Sim.lean assume at most ONE queued task below the
+active child; a ParallelAction child has one per finished leaf): if, while the snapshot of the batch is worked off inside the
+child `c`, every task found under a snapshot id is the finish notification of a STRICT descendant of `c` (`BatchOk`), then one
+control-free op of the parent IS the op of its active child, embedded — the parent's own fields and the other children are not
+touched, whatever the number of notifications in the batch. -/
+theorem C17_batch_embed {d : Node} {cs : TL} {i : Nat} {c : T} (h : Ctx d cs i c) (g : G) (op : Op) (hop : cfOp op = true)
+    (hu : g.user = []) (hb : BatchOk c (advG g op) (batchOf c)) :
+    step (.node d cs) g op = (.node d (setChild cs i (step c g op).1), (step c g op).2.1, []) :=
+  step_embed_batch h g op hop hu hb
+
+/-- … and it generalises the one-task case every serial composite is proved with -/
+theorem C17_batch_embed_generalises (c : T) (g : G) (hap : AP c) (hnf : hasFin c = false) : BatchOk c g (batchOf c) :=
+  batchOk_of_AP c g hap hnf
+
+/-- Sequence[ Parallel(AllFinish)[ F2(succ), F3(fail), Sleep4(105 ms) ], F5(succ) ] -/
+def seqOverPar : T :=
+  comp 0 (.seq .all) [comp 1 (.par .all) [leaf 2 (.func true none), leaf 3 (.func false none), leaf 4 (.sleep 105)], leaf 5 (.func true none)]
+
+/-- non-vacuity of `C17_batch_embed`: right after `start` the parallel child has TWO notifications queued (not `AP`), the batch is
+`BatchOk`, the sequence node is a `Ctx` around it; and the whole run does what the documented meaning says: calls 2, 3 (inside
+start()), then — after the sleep — 5, then exactly one finish notification with the result of the last child -/
+example :
+    let s := start seqOverPar {}
+    (allTasks s.1 []).length = 2 ∧
+    (∃ c, s.1.children.get? 0 = some c ∧ (allTasks c []).length = 2 ∧
+      decide (∀ x ∈ allTasks c [], x.2.1 ≠ []) = true) := by decide +kernel
+
+example : eval seqOverPar = some (true, 2) ∧ visit seqOverPar = [2, 3, 5] ∧
+    trOf (run seqOverPar {} [.calls [.start], .pass, .pass]).2.log = [Sum.inl 2, Sum.inl 3] ∧
+    trOf (run seqOverPar {} [.calls [.start], .pass, .adv 200, .pass, .pass, .pass, .pass]).2.log =
+      [Sum.inl 2, Sum.inl 3, Sum.inl 5, Sum.inr (true, 2)] := by decide +kernel
+
 -- OPEN T, sharpened (round 9): the documented result of a tree with timeouts under `fineRun`.  Closed: what a firing timeout does
 --   (`C17_timeout_fires`), the timer phase under the hypothesis (`C17_fine_schedule_timer_phase`).  Missing: "an armed timeout that is
 --   not due changes nothing" — `E (step t g op).1 = (step (E t) g op).1` where `E` erases `tmo` / `tmoAt` of the root; every function
@@ -713,10 +771,16 @@ theorem C17_fine_schedule_on_race_tree :
 --   before the deadline.  A Sleep leaf with its OWN timeout does not fit `DoneAs` (when the timeout wins the sleep timer stays armed
 --   until the parent resets the leaf — in the code as well: SleepAction has no onFinished; harmless, the late callback finds the
 --   action ended), so leaf timeouts need `Inert` weakened to "armed timers belong to ended leaves".
--- OPEN M3, unchanged this round (Parallel below serial composites / over composite children): see the note below; the cheaper
---   route found while reading `Good`: `RunOk` contains `AP`, and the trace clause uses `visit`, which is `[]` for a parallel node
---   although its Function children ARE called — `visit (.par)` must become the children's `fnIds` (for leaf children, all inside
---   `start()`), and `AP` "every queued task of the subtree is a finish notification of a child of the subtree's root".
+-- OPEN M3 (Parallel below serial composites / over composite children), state after round 10: `visit (.par)` IS the children's
+--   visit orders in child order now (`C17_result_matches_doc_par_leaves_visit`), and the batch form of the embedding is proved
+--   (`C17_batch_embed`, `BatchOk`; `C17_batch_embed_generalises`: `AP` is an instance).  Stage (i) — Parallel over leaves as a CHILD — still
+--   needs, exactly: (1) `AP R.1` in `RunOk` / `OnWay` replaced by `AP R.1 ∨ ∀ ms, BatchOk R.1 {g with now := g.now + ms} (batchOf R.1)`
+--   (consumers: `runQueue_embed`, `AP_embed`, `wait_ok`, three sites in `gen` / `genR` / `gen_live`: mechanical with `C17_batch_embed`);
+--   (2) `BatchOk` of every `PI` state — the parallel node's OWN notification, posted in the middle of a batch, is not in the snapshot: `Phase`
+--   must remember `N0 ≤ id` for the id of that notification (N0 = `nextId` when the batch began; today `∃ id`), then `IdsOk` gives
+--   `id ∉ snapshot`; (3) `DoneAs` at the end of the step in which the parallel node finished (`hdel` of `step_PI`: every leaf task of the
+--   snapshot has been delivered; leaves stopped by `stopAll` have no timer) — then `Good (par over leaves)` follows from `run_PI`, and
+--   `both_size` takes `.par` as one more kind.  Not closed this round (the round went into three new defects of the real code).
 
 /-! ### OPEN (stated, not proved; carried by the executable model + correspondence + monitors)
 
